@@ -261,18 +261,21 @@ def run(ctx):
                 raise MachineryError("vacuous: no program with shape tag %s" % t)
         # binding self-test: a corrupted expected name and a corrupted attribute element must be reported
         import copy
-        probe = next(it for it in items if "attr-array-lit" in it["tags"] and "top" in it["tags"] and it["pts"] and not judge(it)[0])
-        bad = copy.deepcopy(probe)
-        gi = next(i for i, e in enumerate(bad["expect"]) if len(e) >= 2 and bad["groups"][i] != "der_states")
-        nm = next(n for n in bad["namemap"] if len(n["scalars"]) >= 2 and n["flat"] == "a")
-        nm["scalars"][0], nm["scalars"][1] = nm["scalars"][1], nm["scalars"][0]
-        if not any(r["observable"] == "expanded-names" for r in judge(bad)[0]):
-            raise MachineryError("binding self-test failed: swapped expected names accepted")
-        bad = copy.deepcopy(probe)
-        e0, e1 = bad["expect"][gi][0], bad["expect"][gi][1]
-        e0["attrs"], e1["attrs"] = e1["attrs"], e0["attrs"]
-        if e0["attrs"] != e1["attrs"] and not any(r["observable"] == "expanded-attribute" for r in judge(bad)[0]):
-            raise MachineryError("binding self-test failed: swapped attribute elements accepted")
+        probe = next((it for it in items if "attr-array-lit" in it["tags"] and "top" in it["tags"] and it["pts"] and not judge(it)[0]), None)
+        if probe is None and not ctx.violations:
+            raise MachineryError("binding self-test impossible: no program of the family conforms")
+        if probe is not None:      # (on a tree with violations everywhere there may be nothing clean to corrupt)
+            bad = copy.deepcopy(probe)
+            gi = next(i for i, e in enumerate(bad["expect"]) if len(e) >= 2 and bad["groups"][i] != "der_states")
+            nm = next(n for n in bad["namemap"] if len(n["scalars"]) >= 2 and n["flat"] == "a")
+            nm["scalars"][0], nm["scalars"][1] = nm["scalars"][1], nm["scalars"][0]
+            if not any(r["observable"] == "expanded-names" for r in judge(bad)[0]):
+                raise MachineryError("binding self-test failed: swapped expected names accepted")
+            bad = copy.deepcopy(probe)
+            e0, e1 = bad["expect"][gi][0], bad["expect"][gi][1]
+            e0["attrs"], e1["attrs"] = e1["attrs"], e0["attrs"]
+            if e0["attrs"] != e1["attrs"] and not any(r["observable"] == "expanded-attribute" for r in judge(bad)[0]):
+                raise MachineryError("binding self-test failed: swapped attribute elements accepted")
         # as-built switch: the programs on which the model of the pinned code raises must raise on the code (and only those)
         wit = [it for it in asbuilt if it["modelraises"]]
         if not wit:
